@@ -135,6 +135,12 @@ SetPlainEq ==
   /\ UNCHANGED <<src, srcw, link, val, ctx>>
   /\ Rec("plaineq", [n |-> "k"], "rejected", val, link, {})
 
+\* target.param.trigger(n): the watchers of n run; values and links stay as they are
+TriggerT(n) ==
+  /\ "trigger" \in Acts /\ Step /\ n \in Scalars /\ ctx = <<>>
+  /\ UNCHANGED <<src, srcw, link, val, ctx>>
+  /\ Rec("trigger", [n |-> n], "ok", val, link, {})
+
 \* `with target.param.update(n=v):` ... on exit the previous value and link are back
 EnterUpd(n, v, form) ==
   /\ "updctx" \in Acts /\ Step /\ ctx = <<>> /\ n \in Scalars /\ Valid(n, v)
@@ -155,7 +161,7 @@ Next == \/ \E i \in Sources, v \in {0, 2, 4, 5, NoneV}, w \in {1, 3}, o \in {"vw
         \/ \E n \in PNames : \E ref \in RefsFor(n) : SetRef(n, ref)
         \/ \E n \in PNames : \E v \in (IF n = "r" THEN {107} ELSE {3, 9}) : SetPlain(n, v)
         \/ \E n \in Scalars, form \in {"kw", "dict"} : EnterUpd(n, 3, form)
-        \/ ExitUpd \/ SetPlainEq
+        \/ ExitUpd \/ SetPlainEq \/ \E n \in Scalars : TriggerT(n)
 Spec == Init /\ [][Next]_vars
 
 \* ---- properties ------------------------------------------------------------------------------
